@@ -8,11 +8,13 @@ import numpy as np
 import gens, c02
 from tap import Tap
 
-RULE = ("configurations = generator (dfs, prim, wilson, percolation p>=.5, dfs_percolation) x kwargs x grid 2..7 x endpoint options "
+RULE = ("configurations = generator (dfs, prim, wilson, percolation p>=.5, dfs_percolation) x kwargs (plus 14 / thorough 150 additional "
+        "configs with a fixed start_coord, a third of those NOT a cell of the grid: generation must raise ValueError and the model must be in "
+        "its start-rejected branch; a produced dataset is a violation) x grid 2..7 x endpoint options "
         "({}, dead-end start/end, allowed start/end lists, endpoints_not_equal and combinations) x seeds; serial (tapped, exact) and "
         "parallel with several pool sizes; non-trivial = item whose solution has >= 2 cells; distinct = distinct (config, index, solution)")
 ASSUMPTIONS = ["multiprocessing transport (pickling, imap ordering) is exercised, not modelled: the per-item theorem holds for every draw stream, the schedule only selects the stream",
-               "configurations whose generation raises the documented ValueError (component of one cell, empty allowed set) are outside the property's quantifier and only counted",
+               "configurations whose generation raises the documented ValueError (component of one cell, empty allowed set; a start_coord that is not a cell of the grid - accepted ONLY for such a start_coord, counted separately) are outside the property's quantifier and only counted",
                "visited_cells of percolation generators: component exactness is C13_component (validated here per run)"]
 TRUSTED = ["RNG taps, `min` shadow, wrappers around _generate_maze_helper / generate_random_path used to cut the draw stream per item"]
 
@@ -20,10 +22,10 @@ EP_OPTS = [dict(), dict(deadend_start=True), dict(deadend_end=True), dict(deaden
            dict(endpoints_not_equal=True), "allowed_start", "allowed_end", "allowed_both", "allowed_start_deadend_end"]
 
 
-def make_cfg(rng, k):
+def make_cfg(rng, k, with_start=None):
     from maze_dataset import MazeDatasetConfig
     from maze_dataset.generation.generators import GENERATORS_MAP
-    gen = rng.choice(["dfs", "dfs", "prim", "wilson", "percolation", "dfs_percolation"])
+    gen = rng.choice(["dfs", "dfs", "prim", "wilson", "percolation", "dfs_percolation"] if with_start is None else ["dfs", "dfs", "prim", "percolation", "dfs_percolation"])
     n = rng.randint(2, 7)
     kw = {}
     if gen in ("dfs", "prim", "dfs_percolation") and rng.random() < 0.4:
@@ -31,6 +33,13 @@ def make_cfg(rng, k):
     if gen == "dfs" and rng.random() < 0.3: kw["do_forks"] = False
     if gen == "dfs" and rng.random() < 0.3: kw["max_tree_depth"] = rng.choice([3, n, 2 * n])
     if gen in ("percolation", "dfs_percolation"): kw["p"] = rng.choice([0.5, 0.7, 0.9, 1.0]) if gen == "percolation" else rng.choice([0.1, 0.4, 0.7])
+    if with_start is not None and gen != "wilson":
+        # a fixed start_coord for every maze of the dataset (a list: configs are serialised); with_start == "outside": one that
+        # is NOT a cell of the grid - generation must then raise ValueError (`_random_start_coord`), never produce items
+        kw["start_coord"] = [rng.randrange(n), rng.randrange(n)]
+        if with_start == "outside":
+            outs = gens.outside_starts(rng, n, n)
+            kw["start_coord"] = [int(x) for x in (outs[(k // 3) % 4] if k % 2 else rng.choice(outs))]   # the four one-past-an-edge / -1 starts in turn
     ep = rng.choice(EP_OPTS)
     cells = list(itertools.product(range(n), range(n)))
     if ep == "allowed_start": ep = dict(allowed_start=rng.sample(cells, min(3, len(cells))))
@@ -94,12 +103,26 @@ def serial(ctx, cfg, case, ep, reqs):
         def rec_min(it, key=None):
             v = min(it, key=key); marks[-1][4].append([int(v[0]), int(v[1])]); return v
         MD._generate_maze_helper, LM.LatticeMaze.generate_random_path, LM.min = helper, path, rec_min
+        so = gens.start_outside(case)
         try:
             ds = MD.MazeDataset.generate(cfg, gen_parallel=False)
         except ValueError as e:
             msg = str(e.args[0]) if e.args else ""
             if "solution could not be found" in msg:
-                ctx.violate(f"serial generation of {cfg.summary()['maze_ctor_name']} {case} endpoint_kwargs={ep}: solver found no path between drawn endpoints", dict(case=case, ep=opts_json(ep), seed=cfg.seed))
+                ctx.violate(f"serial generation of {cfg.summary()['maze_ctor_name']} {case} endpoint_kwargs={ep}: solver found no path between drawn endpoints"
+                            + (f" (start_coord {case['kwargs']['start_coord']} is not a cell of the grid: generation should have raised ValueError for it)" if so else ""),
+                            dict(case=case, ep=opts_json(ep), seed=cfg.seed), key="start-coord-outside-grid" if so else "unlisted")
+            elif so:
+                # documented: the generator rejects a start_coord that is not a grid cell - before any random number is drawn
+                if t.draws or t.rands:
+                    ctx.violate(f"serial generation of {case} endpoint_kwargs={ep} seed={cfg.seed}: start_coord {case['kwargs']['start_coord']} is not a cell of the {cfg.grid_n}x{cfg.grid_n} grid ({so}); "
+                                f"it was not rejected up front: mazes were built from it ({len(t.draws)} draws, {len(t.rands)} rands consumed) before ValueError({msg[:100]!r})",
+                                dict(case=case, ep=opts_json(ep), seed=cfg.seed), key="start-coord-outside-grid")
+                ctx.count("documented_ValueError_start_outside_grid")
+                reqs.append((dict(gens.request(case, dict(draws=[], rands=[])), op="C03.item", opts=opts_json(ep), s=[0, 0], e=[0, 0], picks=[]),
+                             dict(case=case, ep=opts_json(ep), seed=cfg.seed, index=0, rejected=so), None, None))
+            elif "outside the grid" in msg:
+                ctx.violate(f"{case}: generation raised ValueError({msg[:120]!r}) although start_coord is a cell of the grid", dict(case=case, ep=opts_json(ep), seed=cfg.seed))
             else:
                 ctx.count("documented_ValueError")
             return None
@@ -107,6 +130,12 @@ def serial(ctx, cfg, case, ep, reqs):
             MD._generate_maze_helper, LM.LatticeMaze.generate_random_path = orig_helper, orig_path
             del LM.min
         draws, rands = list(t.draws), list(t.rands)
+    if so:
+        bad = next((b for b in (oracle_item(cfg.grid_n, m, ep) for m in ds.mazes) if b), "every item passes the per-item clause")
+        ctx.violate(f"serial generation of {case} endpoint_kwargs={ep} seed={cfg.seed}: start_coord {case['kwargs']['start_coord']} is not a cell of the {cfg.grid_n}x{cfg.grid_n} grid ({so}) "
+                    f"but a dataset of {len(ds)} items was produced instead of ValueError; {bad}; connections of item 0: {gens.edges_of(ds.mazes[0].connection_list)[:10]}",
+                    dict(case=case, ep=opts_json(ep), seed=cfg.seed), key="start-coord-outside-grid")
+        return None
     if len(ds) != cfg.n_mazes or len(marks) != cfg.n_mazes:
         ctx.violate(f"dataset has {len(ds)} items for n_mazes={cfg.n_mazes}", dict(case=case, seed=cfg.seed)); return None
     for i, m in enumerate(ds.mazes):
@@ -126,9 +155,16 @@ def run(ctx):
     n_cfg = 60 if ctx.quick else 600
     par_sizes = [1, 2, 3, 5] if ctx.quick else [1, 2, 3, 4, 5, 7, 8, 11, 16]
     par_jobs = []
-    for k in range(n_cfg):
-        cfg, case, ep = make_cfg(ctx.rng, k)
+    # the start_coord configurations are ADDITIONAL ones drawn from a side stream (the main configuration stream is unchanged):
+    # one in six of them carries a start_coord that is not a cell of the grid, at least two on every run
+    import random as pyrandom
+    side = pyrandom.Random(ctx.rng.getstate()[1][0] ^ 0x5C03)
+    n_start = 14 if ctx.quick else 150
+    plan = [(k, None) for k in range(n_cfg)] + [(n_cfg + j, "outside" if j % 6 in (1, 4) else "grid_cell") for j in range(n_start)]
+    for k, ws in plan:
+        cfg, case, ep = make_cfg(ctx.rng if ws is None else side, k, ws)
         ctx.count(f"gen={case['gen']}"); ctx.count("ep=" + ",".join(sorted(opts_json(ep))) if ep else "ep=default")
+        if "start_coord" in case["kwargs"]: ctx.count("start_coord=" + (gens.start_outside(case) or "grid_cell"))
         ds = serial(ctx, cfg, case, ep, reqs)
         if ds is None: continue
         for i, m in enumerate(ds.mazes):
@@ -174,6 +210,13 @@ def run(ctx):
     outs = ctx.driver.run_parallel([r for r, *_ in reqs] + [r for r, *_ in certs])
     for (rq, info, edges, sol), o in zip(reqs, outs):
         ctx.traces_validated += 1
+        if info.get("rejected"):
+            want = gens.REJECT_REASON[info["rejected"]]
+            if o.get("ok") or o.get("reason") != want:
+                ctx.disagree(f"{info}: real generation raised ValueError for the start_coord; model reply {str(o)[:200]}, expected ok=false reason={want}", info)
+            continue
+        if not o.get("ok") and o.get("reason") in gens.REJECT_REASON.values():
+            ctx.disagree(f"{info}: model rejects the start_coord ({o.get('reason')}) but the real code generated the item", info); continue
         if "error" in o or not o.get("ok"): ctx.disagree(f"{info}: model generator run did not complete: {o}", info); continue
         if sorted(o["gen"]["edges"]) != edges: ctx.disagree(f"{info}: connection bits differ", info); continue
         if o.get("solve") != "ok" or o.get("solution") != sol:
@@ -233,6 +276,8 @@ def search(ctx):
                 ctx.violate(f"item {i} of {info['case']} endpoint_kwargs={info.get('ep')} seed={info['seed']}: {bad}", dict(info, index=i)); return
             if _all_pairs_shortest(ctx, m, info["case"]["rows"], dict(case=info["case"], seed=info["seed"], index=i)): return
     # 2. datasets of mazes WITH cycles (where a solver defect can hide) and the general mix
+    import random as pyrandom
+    side = pyrandom.Random(ctx.rng.getstate()[1][0] ^ 0x5C04)
     for k in range(300 if ctx.quick else 3000):
         if k % 2 == 0:
             n = ctx.rng.randint(5, 10)
@@ -240,14 +285,20 @@ def search(ctx):
             case["kwargs"]["p"] = round(ctx.rng.uniform(0.15, 0.5), 2) if case["gen"] == "dfs_percolation" else round(ctx.rng.uniform(0.55, 0.9), 2)
             ep = {}
             cfg = _cfg_of(case, ep, ctx.rng.randint(0, 2**20), 16, f"c03s_{k}")
+        elif k % 16 == 5:
+            cfg, case, ep = make_cfg(side, 10_000 + k, "outside" if k % 64 == 5 else "grid_cell")   # side stream: main stream unchanged
         else:
             cfg, case, ep = make_cfg(ctx.rng, 10_000 + k)
+        so = gens.start_outside(case)
         try:
             ds = MazeDataset.generate(cfg)
         except ValueError as e:
             if "solution could not be found" in (str(e.args[0]) if e.args else ""):
                 ctx.violate(f"{case} {ep}: solver found no path between drawn endpoints", dict(case=case, ep=opts_json(ep), seed=cfg.seed)); return
             continue
+        if so:
+            ctx.violate(f"{case} {ep} seed={cfg.seed}: start_coord {case['kwargs']['start_coord']} is not a cell of the grid ({so}) but a dataset of {len(ds)} items was produced instead of ValueError",
+                        dict(case=case, ep=opts_json(ep), seed=cfg.seed), key="start-coord-outside-grid"); return
         for i, m in enumerate(ds.mazes):
             ctx.case([cfg.name, i])
             bad = oracle_item(cfg.grid_n, m, ep)
@@ -271,7 +322,17 @@ def replay(ctx, rp):
     case = c["case"]; ep = {k: ([tuple(x) for x in v] if isinstance(v, list) else v) for k, v in c.get("ep", {}).items()}
     cfg = MazeDatasetConfig(name="replay", grid_n=case["rows"], n_mazes=max(8, c.get("index", 0) + 1), maze_ctor=GENERATORS_MAP["gen_" + case["gen"]],
                             maze_ctor_kwargs=case["kwargs"], endpoint_kwargs=ep, seed=c["seed"])
-    ds = MazeDataset.generate(cfg)
+    so = gens.start_outside(case)
+    try:
+        with Tap() as t:
+            ds = MazeDataset.generate(cfg, gen_parallel=False)
+    except ValueError as e:
+        msg = str(e.args[0]) if e.args else ""
+        if "solution could not be found" in msg: ctx.violate(f"replay: solver found no path between drawn endpoints ({case})", c)
+        elif so and (t.draws or t.rands): ctx.violate(f"replay: start_coord {case['kwargs']['start_coord']} ({so}) not rejected up front: {len(t.draws)} draws consumed before ValueError({msg[:100]!r})", c)
+        return
+    if so:
+        ctx.violate(f"replay: start_coord {case['kwargs']['start_coord']} is not a cell of the grid ({so}) but a dataset of {len(ds)} items was produced", c); return
     for i, m in enumerate(ds.mazes):
         bad = oracle_item(cfg.grid_n, m, ep)
         if bad: ctx.violate(f"replay item {i}: {bad}", c)
